@@ -74,12 +74,14 @@ impl<T: GenServer> GenServerProcess<T> {
                 let reply_msg = OwnedTerm::Tuple(vec![OwnedTerm::Reference(reference), reply]);
 
                 if let Some(handle) = self.registry.get(&from_pid).await {
-                    handle
+                    // The caller may be terminating: a reply that cannot be delivered
+                    // any more is dropped, it does not take the server down.
+                    let _ = handle
                         .send(Message::Regular {
                             from: None,
                             body: reply_msg,
                         })
-                        .await?;
+                        .await;
                 }
 
                 Ok(())
